@@ -4,6 +4,7 @@ CONSTANTS
   Modes <- ModesQuick
   IterateAllFields = FALSE
   SplitEverySpace = FALSE
+  CacheWidths = FALSE
   Emit = TRUE
   EmitOff = 0
 SPECIFICATION Spec
